@@ -163,8 +163,20 @@ def r6_1(run):
 
         def alloc_ok(b):
             # -1 everywhere where the table is not empty; an empty array otherwise (scattering nothing into it is a no-op)
-            lv = [leaf for _, leaf in ite_leaves(b)]
+            def lifted(t):
+                """leaves of an allocation whose *size* is a conditional value: full(n if c else 0, -1) -> full(n, -1) | full(0, -1)"""
+                out = []
+                for _, leaf in ite_leaves(t):
+                    if leaf[0] == "call" and leaf[2] and leaf[2][0][0] == "ite":
+                        for _, a0 in ite_leaves(leaf[2][0]):
+                            out.extend(lifted((leaf[0], leaf[1], (a0,) + tuple(leaf[2][1:]), leaf[3])))
+                    else:
+                        out.append(leaf)
+                return out
+            lv = lifted(b)
             def empty(t):
+                if t[0] == "call" and t[1] == ("x", "numpy.full") and t[2] and t[2][0] == C(0):
+                    return True
                 return t[0] == "call" and t[1] == ("x", "numpy.array") and t[2] and (t[2][0][0] == "new" or t[2][0] == ("list", ()))
             return any(tkey(x) == tkey(want_alloc) for x in lv) and all(tkey(x) == tkey(want_alloc) or empty(x) for x in lv)
         ok = False
